@@ -53,6 +53,18 @@ class Bridge:
         raise ValueError(k)
 
     def to_json(self, p) -> dict:
+        """memoised per object identity (proof terms are DAGs with massive sharing)"""
+        memo = self.__dict__.setdefault('_memo', {})
+        hit = memo.get(id(p))
+        if hit is not None and hit[0] is p:
+            return hit[1]
+        r = self._to_json(p)
+        if len(memo) > 2_000_000:
+            memo.clear()
+        memo[id(p)] = (p, r)
+        return r
+
+    def _to_json(self, p) -> dict:
         if type(p) is P.EVar:
             return {'t': 'ev', 'i': p.name}
         if type(p) is P.SVar:
